@@ -85,6 +85,11 @@ CLAIMED["C18"] = ("lockset (E3), predicated path enumeration with loop unrolling
          "go/ssa model; context/backoff/grpc behaviour assumed; one exemption (initDone's closer reads subscribeDone on the writing goroutine) listed with reason in evidence",
          "DESIGN.md §3 C18")
 
+CLAIMED["C19"] = ("map-order taint lint (E8), predicated path enumeration for the ToStrings/CompletePath placement tables (E4), arm-by-arm sibling/soundness analysis of value.Equal and kind tables of From/ToScalar (E7), store-root and constant-agreement checks for the client path, append-ownership (E9)",
+         "Static, all-paths: map-order independence of every result in path/value/client-gnmi, target/origin/element/key placement table of ToStrings, complete CompletePath origin table, value.Equal nil-safe/total/sound per arm incl. leaf-list boundaries, scalar kind tables agree with error defaults, the client query path is escaped with the separator it is joined with on a private copy. Necessary conditions of determinism, faithfulness and totality; round trips through ygot/the wire and float precision are not decided.",
+         "go/ssa model; sort.* sorts; ygot not analysed",
+         "DESIGN.md §3 C19")
+
 NA_REASON = {}
 DEFAULT_NA = "check not built yet in this round (static rules designed in DESIGN.md section 3); not claimed until the rule runs"
 
